@@ -8,7 +8,7 @@ MC = os.path.join(VERIF, 'mc')
 RENAMES = ['-Dpthread_mutex_lock=mc_mutex_lock', '-Dpthread_mutex_unlock=mc_mutex_unlock', '-Dpthread_cond_wait=mc_cond_wait',
            '-Dpthread_cond_timedwait=mc_cond_timedwait', '-Dpthread_cond_signal=mc_cond_signal', '-Dpthread_cond_broadcast=mc_cond_broadcast',
            '-Dpthread_mutex_init=mc_mutex_init', '-Dpthread_mutex_destroy=mc_mutex_destroy', '-Dpthread_cond_init=mc_cond_init',
-           '-Dpthread_cond_destroy=mc_cond_destroy', '-Dpthread_create=mc_thread_create', '-Dpthread_join=mc_thread_join']
+           '-Dpthread_cond_destroy=mc_cond_destroy', '-Dpthread_create=mc_thread_create_ut', '-Dpthread_join=mc_thread_join']
 FLAVOURS = {
     'plain': ('gcc', ['-O1', '-g']),
     'tsan': ('clang', ['-O1', '-g', '-fsanitize=thread', '-fno-omit-frame-pointer']),
